@@ -175,31 +175,45 @@ Fixpoint spawn_upto (c : cfg) (n : nat) (fuel : nat) (p : pool) : option pool :=
        | S f => match pl_step c PSpawn p with Some p' => spawn_upto c n f p' | None => None end
        end.
 
-Definition inst_of (e : oevent) : option nat :=
-  match e with
-  | OLeft i _ | OAcq i _ | ONext i _ | OShoot i _ | ODisc i | ORel i _ => Some i
-  | _ => None
+(* instance i is at [from]; it performs its next section (a PInst step of the pool); it must arrive at [to] *)
+Definition phop (c : cfg) (i : nat) (d : bool) (from to : ipc) (p : pool) : option pool :=
+  match pc_at (core p) i with
+  | Some q =>
+      if ipc_eqb q from then
+        match pl_step c (PInst i d) p with
+        | Some p' => match pc_at (core p') i with
+                     | Some q' => if ipc_eqb q' to then Some p' else None
+                     | None => None
+                     end
+        | None => None
+        end
+      else None
+  | None => None
   end.
 
-(* one observed instance operation: the sections of Model/Instance.v's replay, with the pool's
-   bookkeeping ([stat], schedule-finish callback) of PInst *)
+(* one observed instance operation = the sections of Model/Instance.v's [replay_one], performed as PInst
+   steps of the pool (so the pool's bookkeeping -- [stat], schedule-finish callback -- follows) *)
 Definition pool_op (c : cfg) (e : oevent) (p : pool) : option pool :=
-  match inst_of e with
-  | None => None
-  | Some i =>
-      match nth_error (stat p) i, nth_error (insts (core p)) i with
-      | Some IRun, Some x =>
-          match replay_one c e (core p) with
-          | Some s' =>
-              let fin := negb (per_inst c) && (stoks (sh (core p)) =? 0)
-                         && match e with OLeft _ _ | ONext _ _ => true | _ => false end in
-              let ended := match pc_at s' i with Some Done => true | _ => false end in
-              let ooa := match pc x with Acq => true | _ => false end in
-              Some (mkPool s' (sleft p) (if ended then upd (stat p) i (IEnded ooa) else stat p) (start_res p) (paw p)
-                           (start_cancel p || fin) (run_cancel p) (bad p))
-          | None => None
-          end
-      | _, _ => None
+  match e with
+  | OSpawn _ | OEnd => None
+  | OLeft i z => phop c i false Check (if z then Done else Acq) p
+  | OAcq i (Some a) => phop c i false Acq (Wait a) p
+  | OAcq i None => phop c i false Acq Done p
+  | ONext i ok =>
+      match pc_at (core p) i with
+      | Some (Wait a) => phop c i false (Wait a) (if ok then Dec a else Rel a) p
+      | _ => None
+      end
+  | OShoot i a => bind (phop c i false (Dec a) (Shoot a) p) (phop c i false (Shoot a) (Resp a))
+  | ODisc i =>
+      match pc_at (core p) i with
+      | Some (Dec a) => phop c i true (Dec a) (Rel a) p
+      | _ => None
+      end
+  | ORel i a =>
+      match pc_at (core p) i with
+      | Some (Resp _) => bind (phop c i false (Resp a) (Rel a) p) (phop c i false (Rel a) Check)
+      | _ => phop c i false (Rel a) Check p
       end
   end.
 
